@@ -46,7 +46,16 @@ type wireResult struct {
 	Result json.RawMessage `json:"result,omitempty"`
 	Err    string          `json:"err,omitempty"`
 	Panic  string          `json:"panic,omitempty"` // Go panic recovered by the worker loop itself
+	// Restart asks the driver to replace this worker process after the job (set by a handler through
+	// RequestWorkerRestart, e.g. because it abandoned a goroutine that does not terminate).
+	Restart bool `json:"restart,omitempty"`
 }
+
+var restartRequested bool
+
+// RequestWorkerRestart may be called by a job handler (inside a worker): the result of the current
+// job is delivered normally, then the driver kills this worker process and starts a fresh one.
+func RequestWorkerRestart() { restartRequested = true }
 
 // JobResult is what the driver gets back for one job.
 type JobResult struct {
@@ -56,6 +65,7 @@ type JobResult struct {
 	Crashed bool            // the worker process died while running this job
 	CrashLog string         // tail of the worker's stderr/stdout when it died
 	Timeout bool            // killed after the job's timeout
+	Restart bool            // the handler asked for a fresh worker process (already honoured by Map)
 }
 
 func (r *JobResult) Decode(v any) error { return json.Unmarshal(r.Result, v) }
@@ -91,6 +101,8 @@ func WorkerMain() {
 
 func runJob(j *wireJob) (res wireResult) {
 	res.Seq = j.Seq
+	restartRequested = false
+	defer func() { res.Restart = restartRequested }()
 	h := handlers[j.Kind]
 	if h == nil {
 		res.Err = "unknown job kind " + j.Kind
@@ -216,7 +228,7 @@ func (p *Pool) Map(jobs []Job, progress func(done int)) []JobResult {
 					}
 				}
 				results[i] = p.runOne(w, i, &jobs[i])
-				if results[i].Crashed || results[i].Timeout {
+				if results[i].Crashed || results[i].Timeout || results[i].Restart {
 					w.kill()
 					w = nil
 				}
@@ -269,7 +281,7 @@ func (p *Pool) runOne(w *worker, seq int, j *Job) JobResult {
 		if e := json.Unmarshal(r.line, &wr); e != nil {
 			return JobResult{Err: "bad worker result: " + e.Error()}
 		}
-		return JobResult{Result: wr.Result, Err: wr.Err, Panic: wr.Panic}
+		return JobResult{Result: wr.Result, Err: wr.Err, Panic: wr.Panic, Restart: wr.Restart}
 	case <-time.After(timeout):
 		return JobResult{Timeout: true, CrashLog: w.logTail()}
 	}
@@ -278,4 +290,13 @@ func (p *Pool) runOne(w *worker, seq int, j *Job) JobResult {
 // IsGoFatal reports whether a crash log shows the Go runtime killing the process.
 func IsGoFatal(log string) bool {
 	return strings.Contains(log, "fatal error:") || strings.Contains(log, "panic:") || strings.Contains(log, "SIGSEGV") || strings.Contains(log, "unexpected signal")
+}
+
+// RunHandlerForTest runs a registered job handler in the calling process (developer aid).
+func RunHandlerForTest(kind string, payload json.RawMessage) (any, error) {
+	h := handlers[kind]
+	if h == nil {
+		return nil, fmt.Errorf("unknown job kind %s", kind)
+	}
+	return h(payload)
 }
